@@ -9,13 +9,14 @@ LEVEL_TEXT = ("The contract TaskingInit (state: initialised?, count in force; In
               "model-checked by TLC on a bounded instance per backend kind: the rule recorded loops are judged by (largest prefix sum of the "
               "entry/exit order <= count in force) is shown equal to 'at no moment more threads inside bodies than the count' on loops unfolded "
               "into single entries and exits, the contract's state agrees with the declarative reading of the statement over every history of "
-              "initialisations, and the allowed answers obey the laws of the statement (0 before initialisation, exactly n - 1 when serial - "
-              "after the latest positive n, positive for the default, never exceeded by an allowed loop).  ALL histories of Init / Query / Loop "
-              "up to a length (arguments -1, 0, 1, 2, 3, 8, 2H; issuing thread = initialising thread or a second std::thread; flat and nested "
-              "loops), taken as paths of TLC's complete state graph, plus long seeded random walks over every n in -2..2H+1, are executed on "
-              "the real initTaskingSystem / numTaskingThreads / parallel_for of all four backends, each history in a fresh process; exact "
-              "answers are compared with the values TLC computed and every execution (answers, and the entry/exit order of the loop bodies "
-              "stamped by one atomic counter) is validated by TLC against the contract.")
+              "initialisations, and the allowed answers obey the laws of the statement (0 before initialisation; exactly n - 1 when serial - "
+              "after the latest positive n; positive for the default; never exceeded by an allowed loop).  ALL histories of Init / Query / Loop "
+              "of length 2 (quick) / 3 (thorough) over the arguments -1, 0, 1, 2, 3, 8, 2H, issuing thread = initialising thread or a second "
+              "std::thread, flat and nested loops - taken as paths of TLC's complete state graph - plus one history per transition, a seeded sample "
+              "of all histories one step longer and long seeded random walks over every n in -2..2H+1 are executed on the real initTaskingSystem / "
+              "numTaskingThreads / parallel_for of all four backends, each history in a fresh process; exact answers are compared with the values "
+              "TLC computed and every execution (answers, and the entry/exit order of the loop bodies stamped by one atomic counter) is validated "
+              "by TLC against the contract.")
 LEVEL_NOTE = ("the observed concurrency is a sound lower bound (bodies whose entry..exit stamp intervals overlap were really inside at the same "
               "time); a loop that over-subscribes without the recorder seeing the overlap is missed, never the converse; schedules are whatever the "
               "backend runtime produces (perturbed by loop size, lingering and body cost drawn from the seed), not enumerated; Init is always issued "
@@ -47,7 +48,7 @@ def decorate(h, rnd, thorough):
         if st["a"] == "Loop":
             arg = dict(st["arg"])
             arg["mult"] = rnd.choice([4, 4, 5, 6, 9] if thorough else [4, 4, 5])
-            arg["patience"] = rnd.choice([1500, 3000] if thorough else [800, 1500])
+            arg["patience"] = rnd.choice([1000, 2000, 4000] if thorough else [1000, 2000])
             arg["work"] = rnd.choice([0, 0, 20, 200])
             st["arg"] = arg
         out.append(st)
@@ -285,7 +286,7 @@ def run(chk, replay=None):
             raise InfraError("driver for %s reports backend %s" % (b, hw_of(exes[b])[1]))
     hw, _ = hw_of(exes["Debug"])
     K = 2 if quick else 3
-    n_sample, n_walks, walk_len = (250, 40, 10) if quick else (1500, 300, 14)
+    n_sample, n_walks, walk_len = (150, 30, 8) if quick else (600, 120, 12)
 
     # 1. the contract itself, per backend kind (runs concurrently with 2.)
     def mc(b):
@@ -299,8 +300,9 @@ def run(chk, replay=None):
         agw, rw = graph(b, "TaskingInitGenWide.cfg", hw, "c13-genw-" + b)
         allK = adt.all_paths(ag, K, 10 ** 6)
         nextK = adt.all_paths(ag, K + 1, 10 ** 6)
+        have = {json.dumps(h, sort_keys=True) for h in allK}
+        cover = [h for h in adt.edge_cover(ag) if json.dumps(h, sort_keys=True) not in have]      # one shortest history per transition not yet among them
         sample = rnd.sample(nextK, min(len(nextK), n_sample))
-        cover = adt.edge_cover(ag)
         walks = adt.random_walks(agw, n_walks, walk_len, chk.seed * 7919 + BACKENDS.index(b))
         plain = allK + cover + sample + walks
         hists = [decorate(h, rnd, not quick) for h in plain]
